@@ -40,7 +40,9 @@ def get_file_metadata(path, hashes):
     try:
         # we want O_NONBLOCK to avoid blocking when opening pipes
         fd = os.open(path, os.O_RDONLY | os.O_NONBLOCK)
-    except FileNotFoundError:
+    except (FileNotFoundError, ValueError):
+        # ValueError: the path can not name a file at all (embedded
+        # NUL byte, character that can not be encoded)
         exists = False
         opened = False
     except OSError as err:
